@@ -135,6 +135,11 @@ type runnablePipeline struct {
 	t                *tomb.Tomb
 	backoff          *backoff.Backoff
 	recoveryAttempts *atomic.Int64
+	// forceStopped is set by stopForceful. The tomb only keeps the first
+	// reason it was killed with, so a force stop that arrives while the run is
+	// already failing with a recoverable error would otherwise be lost and the
+	// pipeline would be restarted right after the operator force stopped it.
+	forceStopped atomic.Bool
 }
 
 // ConnectorService can fetch and create a connector instance, and report when
@@ -363,6 +368,7 @@ func (s *Service) stopForceful(ctx context.Context, rp *runnablePipeline) error 
 		Msg("force stopping pipeline")
 
 	// Creates a FatalError to prevent the pipeline from recovering.
+	rp.forceStopped.Store(true)
 	rp.t.Kill(cerrors.FatalError(pipeline.ErrForceStop))
 	for _, n := range rp.n {
 		if node, ok := n.(stream.ForceStoppableNode); ok {
@@ -967,6 +973,11 @@ func (s *Service) runPipeline(ctx context.Context, rp *runnablePipeline) error {
 				return err
 			}
 		default:
+			if rp.forceStopped.Load() && !cerrors.IsFatalError(err) {
+				// the run was already failing when it was force stopped, the
+				// force stop still decides: no recovery (see forceStopped)
+				err = cerrors.FatalError(cerrors.Errorf("%w (the pipeline was already stopping because of: %v)", pipeline.ErrForceStop, err))
+			}
 			if cerrors.IsFatalError(err) {
 				// we use %+v to get the stack trace too
 				if err := s.pipelines.UpdateStatus(ctx, rp.pipeline.ID, pipeline.StatusDegraded, fmt.Sprintf("%+v", err)); err != nil {
